@@ -21,7 +21,8 @@ assert sh("git status --porcelain")[1].strip() == "", "repo dirty"
 head = sh("git rev-parse --short HEAD")[1].strip()
 for sid in ids:
     patch = root / sid / "patch.diff"
-    prop = sid[:3]
+    # a change seeded for one property may be the business of another property's check (precedence: C13; evaluation under parentheses: C12)
+    prop = {"C05h": "C13", "C13j": "C12"}.get(sid, sid[:3])
     rc, _ = sh("git apply --check %s" % patch)
     how = "plain"
     if rc != 0:
@@ -41,7 +42,7 @@ for sid in ids:
         rc, out = sh("./check %s --tier quick" % prop, cwd="/verif")
         line = [l for l in out.splitlines() if l.startswith(prop + " ")]
         viol = [l for l in out.splitlines() if l.startswith("VIOLATION")]
-        res[sid] = {"head": head, "applies": True, "how": how, "exit": rc, "summary": (line or [""])[-1][:200], "violations": len(viol),
+        res[sid] = {"head": head, "applies": True, "how": how, "check": prop, "exit": rc, "summary": (line or [""])[-1][:200], "violations": len(viol),
                     "no_failing_input": any("no-failing-input-found" in v for v in viol)}
         print(sid, rc, (line or [""])[-1][:150])
     finally:
